@@ -638,3 +638,18 @@ Proof.
   split; [exists ex; exact EX|]. split; [exact RK|].
   intros k n t N Sn. rewrite RK by exact N. rewrite EX. apply snap_app. exact Sn.
 Qed.
+
+(* in-place operations return the receiver: they write into existing cells (or allocate the new value) but never re-bind a
+   variable -- every variable, in particular the receiver, still holds the SAME address, so every other reference to the
+   receiver sees the update *)
+Definition inplace_hop (o : hop) : bool :=
+  match o with HSetLit _ _ _ _ | HSetRef _ _ _ _ _ | HDel _ _ _ | HAppendLit _ _ _ | HAppendRef _ _ _ _ => true | _ => false end.
+Lemma inplace_keeps_vars o s s' r : inplace_hop o = true -> hop_step o s = inl (s', r) -> snd s' = snd s.
+Proof.
+  destruct s as [h regs]. destruct o; cbn [inplace_hop]; try discriminate; intros _; cbn [hop_step fst snd]; intros E;
+    repeat match type of E with
+           | context [match ?x with _ => _ end] => destruct x; try discriminate
+           | context [if ?x then _ else _] => destruct x; try discriminate
+           end;
+    inversion E; subst; reflexivity.
+Qed.
